@@ -28,12 +28,16 @@ RULE = ('Each run: up to 4 concurrent channel drivers on the client '
         'drawn packet/byte of either '
         'direction (any point from the version exchange on), a permanent '
         'stall with keepalive enabled, a DISCONNECT/close/abort issued by '
-        'either side at a drawn moment, or cancellation of a caller task. '
+        'either side at a drawn moment, cancellation of a caller task, or a '
+        'callback of one of the application\'s sessions raising. '
         'Drawn as well: a server session that ends itself from '
         'connection_made() (exit status / close right behind the open '
         'confirmation) and an asynchronous begin_auth() that takes a drawn '
         'number of events. No connection may end with an exception that is '
-        'neither an asyncssh.Error nor an OSError. '
+        'neither an asyncssh.Error nor an OSError (the application\'s own '
+        'excepted). At the quiescent point no drain() may wait on a channel '
+        'whose peer\'s CLOSE is in the packet log, and every abort() on a '
+        'live connection must have put a CLOSE on the wire. '
         'At quiescence every tracked await must be done once the connection '
         'is gone; callback logs must match the session/owner grammar; no '
         'channel, task, transport or listener may remain. Non-trivial = the '
